@@ -379,3 +379,12 @@ def disable_hits_the_named_attribute(ctx):
     marks the neighbouring attribute decrypt-only and leaves the named one encryptable."""
     from . import c03
     c03.dict_remove_shifts(ctx)
+
+
+@rule('C06', 'rename-keeps-status')
+def rename_keeps_status(ctx):
+    """Renaming a disabled attribute does not re-enable it: rename moves the very Attribute value under the new name (anarchy:
+    insert(new, remove(old)); hierarchy: Dict::update_key) instead of re-creating it, which would reset its status
+    (C03.rename-keeps-id)."""
+    from . import c03
+    c03.rename_keeps_id(ctx)
